@@ -11,9 +11,12 @@ import (
 	"k8s.io/apimachinery/pkg/runtime/schema"
 	"k8s.io/apimachinery/pkg/types"
 	"k8s.io/client-go/tools/cache"
+	"k8s.io/client-go/util/workqueue"
 	"sigs.k8s.io/controller-runtime/pkg/client"
+	"sigs.k8s.io/controller-runtime/pkg/event"
 	"sigs.k8s.io/controller-runtime/pkg/handler"
 	"sigs.k8s.io/controller-runtime/pkg/predicate"
+	"sigs.k8s.io/controller-runtime/pkg/reconcile"
 	"sigs.k8s.io/controller-runtime/pkg/source"
 
 	corev1alpha1 "package-operator.run/apis/core/v1alpha1"
@@ -438,4 +441,76 @@ func VerifC12Race() {
 		w.c.informerReferencesMux.Unlock()
 	}
 	verifrt.Reach("race-done")
+}
+
+// ---- event fan-out to the watching owners (C18: a change to any source re-renders the template) -----------------
+
+type vQueue struct {
+	workqueue.TypedRateLimitingInterface[reconcile.Request] // nil: only Add is used
+	added                                                   []reconcile.Request
+}
+
+func (q *vQueue) Add(r reconcile.Request) { q.added = append(q.added, r) }
+
+// VerifC18Enqueue: an event for an object of kind K enqueues every owner of the handler's type that watches K - and
+// nobody else - for create, update, delete and generic events, from an arbitrary reference table.
+func VerifC18Enqueue() {
+	nKinds := verifrt.Bound("kinds", 2)
+	nOwners := verifrt.Bound("owners", 3)
+	ownerKinds := []string{"ObjectTemplate", "ObjectSet"}
+	c := &Cache{scheme: vScheme(), informerReferences: map[schema.GroupVersionKind]map[OwnerReference]struct{}{}}
+	type ow struct {
+		kind    string
+		ns      string
+		watches map[string]bool
+	}
+	owners := map[string]*ow{}
+	for _, o := range vOwners[:nOwners] {
+		w := &ow{kind: ownerKinds[verifrt.IntRange("owner."+o+".kind", 0, 1)], ns: []string{"ns", "other"}[verifrt.IntRange("owner."+o+".namespace", 0, 1)], watches: map[string]bool{}}
+		owners[o] = w
+		for _, k := range vKinds[:nKinds] {
+			if verifrt.Bool("watch." + k + "." + o) {
+				w.watches[k] = true
+				if c.informerReferences[vGVK(k)] == nil {
+					c.informerReferences[vGVK(k)] = map[OwnerReference]struct{}{}
+				}
+				ref := OwnerReference{GroupKind: schema.GroupKind{Group: "package-operator.run", Kind: w.kind}, UID: types.UID("uid-" + o), Name: o, Namespace: w.ns}
+				c.informerReferences[vGVK(k)][ref] = struct{}{}
+			}
+		}
+	}
+	h := NewEnqueueWatchingObjects(c, &corev1alpha1.ObjectTemplate{}, vScheme())
+	kind := vKinds[verifrt.IntRange("event.kind", 0, nKinds-1)]
+	obj := vObjOfKind(kind)
+	obj.SetName("source")
+	obj.SetNamespace("ns")
+	q := &vQueue{}
+	ctx := context.Background()
+	switch verifrt.IntRange("event.type", 0, 3) {
+	case 0:
+		h.Create(ctx, event.CreateEvent{Object: obj}, q)
+	case 1:
+		h.Update(ctx, event.UpdateEvent{ObjectOld: obj, ObjectNew: obj}, q)
+	case 2:
+		h.Delete(ctx, event.DeleteEvent{Object: obj}, q)
+	case 3:
+		h.Generic(ctx, event.GenericEvent{Object: obj}, q)
+	}
+	for _, o := range vOwners[:nOwners] {
+		w := owners[o]
+		n := 0
+		for _, r := range q.added {
+			if r.Name == o {
+				n++
+				verifrt.Assert(r.Namespace == w.ns, "C18/watcher-enqueued-under-its-own-key")
+			}
+		}
+		want := w.kind == "ObjectTemplate" && w.watches[kind]
+		verifrt.Assert((n > 0) == want, "C18/source-event-enqueues-exactly-the-watching-templates")
+	}
+	for _, r := range q.added {
+		_, known := owners[r.Name]
+		verifrt.Assert(known, "C18/source-event-enqueues-exactly-the-watching-templates")
+	}
+	verifrt.Reach("enqueued")
 }
